@@ -245,6 +245,17 @@ func (t *taintCtx) callTaintedIdx(fn *ssa.Function, call *ssa.Call, mask string,
 		return false
 	}
 	callee := cc.StaticCallee()
+	if callee == nil && !cc.IsInvoke() {
+		// a function kept in a field of a per-render record (escape: ct.csvEscape): when every store into that
+		// field stores the same function or bound method of this package and that one is a recognised
+		// quoter/escaper, the call is a call of it
+		if target := t.fieldFuncTarget(cc.Value); target != nil && funcPkgPath(target) == t.pkg && len(target.Blocks) > 0 {
+			if desc := t.sanitizerShape(target); desc != "" {
+				t.sanitizers[target] = desc
+				return false
+			}
+		}
+	}
 	if callee == nil {
 		// interface method on a value: tainted if the receiver or an argument is
 		if cc.IsInvoke() && t.tainted(fn, cc.Value, mask) {
@@ -767,4 +778,48 @@ func (t *taintCtx) wrapperField(f *types.Var) bool {
 		}
 	}
 	return false
+}
+
+// fieldFuncTarget: v is the value of a function-typed struct field; every store into that field, anywhere in the
+// module, stores one and the same function (or the same method, bound to some receiver): returns it.
+func (t *taintCtx) fieldFuncTarget(v ssa.Value) *ssa.Function {
+	v = unwrap(v, false)
+	var f *types.Var
+	if fl, _ := loadedField(v); fl != nil {
+		f = fl
+	} else if fv, ok := v.(*ssa.Field); ok {
+		f = fieldOfField(fv)
+	}
+	if f == nil {
+		return nil
+	}
+	if _, isSig := f.Type().Underlying().(*types.Signature); !isSig || f.Exported() {
+		return nil
+	}
+	var target *ssa.Function
+	stores := t.c.StoresTo(f)
+	if len(stores) == 0 {
+		return nil
+	}
+	for _, fs := range stores {
+		var g *ssa.Function
+		switch x := fs.St.Val.(type) {
+		case *ssa.Function:
+			g = x
+		case *ssa.MakeClosure:
+			w, _ := x.Fn.(*ssa.Function)
+			if w != nil && strings.HasPrefix(w.Synthetic, "bound method wrapper") {
+				eachInstr(w, func(in ssa.Instruction) {
+					if c := staticCallee(in); c != nil && g == nil {
+						g = c
+					}
+				})
+			}
+		}
+		if g == nil || (target != nil && g != target) {
+			return nil
+		}
+		target = g
+	}
+	return target
 }
